@@ -45,7 +45,7 @@ theorem bad_unsafe : ¬ SafeRun badBody 5 bad0 := by
   intro hsafe
   have r1 : KReach badBody 5 bad0 (after bad0 (step badBody 5 bad0)) := reach_after KReach.init (by decide +kernel)
   have r2 := reach_after r1 (by decide +kernel)
-  have hi := Inv0.reach badBody 5 bad0_inv (fun h => by cases h) hsafe r2
+  have hi := Inv0.reach badBody 5 bad0_inv (fun h => by cases h) hsafe (fun h => by cases h) r2
   have hp : popsProcessed (after (after bad0 (step badBody 5 bad0)) (step badBody 5 (after bad0 (step badBody 5 bad0)))) = true := by
     decide +kernel
   unfold popsProcessed at hp
@@ -136,12 +136,16 @@ def waitBody : Nat × EvId → Resume → Burst ℚ (Nat × EvId)
 /-- the main process has been started from outside -/
 def wait0 : KState ℚ (Nat × EvId) := (doCall ({ now := 0 } : KState ℚ (Nat × EvId)) 0 (.spawn (0, 0))).1
 
-theorem wait0_inv : Inv0 true wait0 :=
-  (Inv0.init true 0 #[] (fun r => by simp [default])).spawn 0 (0, 0)
+theorem wait0_inv : Inv0 true wait0 true :=
+  (Inv0.init true 0 #[] (fun r => by simp [default]) true).spawn 0 (0, 0)
 
 /-- the run of `waitBody` ends after 6 steps, and each of them is safe -/
 theorem wait_safe : SafeRun waitBody 5 wait0 :=
   SafeUpTo.safeRun (N := 7) (by decide +kernel)
+
+/-- …and none of them runs out of fuel -/
+theorem wait_noHang : NoHangRun waitBody 5 wait0 :=
+  NoHangUpTo.noHangRun (N := 7) (by decide +kernel)
 
 /-- …although the program text alone is not: in another state the same `succeed` would hit a non-existent event -/
 theorem wait_not_safeProg : ¬ SafeProg waitBody := by
